@@ -323,3 +323,34 @@ Example C14_objects_nonvacuous :
   nearest (1201 # 2)%Q = 601.
 Proof. exact ex_prog_facts. Qed.
 Print Assumptions C14_objects_nonvacuous.
+
+(* (c) the class -> header and declaration -> library tables are not stated by hand: Gen/LibTable.v is
+   regenerated on every run from the stitch chain and the declaration helpers of emit() and from
+   _collect_required_libraries, and must equal the model's tables *)
+From RV Require Import Gen.LibTable Proofs.LibTableP.
+
+Theorem C14_tables_are_the_models :
+  gen_class_headers = model_class_headers /\
+  gen_interface_class = model_interface_class /\
+  gen_required = model_required /\
+  gen_collected_attr = interface_attr_text.
+Proof. exact tables_are_the_models. Qed.
+Print Assumptions C14_tables_are_the_models.
+
+Theorem C14_library_name_is_class_name : forall l : lib,
+  In (class_text l) (map snd gen_required) /\
+  In (class_text l, map header_text (headers_of l)) gen_class_headers /\
+  last (map header_text (headers_of l)) [] = class_text l ++ dot_h.
+Proof. exact library_name_is_class_name. Qed.
+Print Assumptions C14_library_name_is_class_name.
+
+Theorem C14_emitted_class_in_table : forall d : lcdd,
+  In ((if l_i2c d then iface_i2c_text else []), lcd_class d) gen_interface_class /\
+  In (lcd_class d, map header_text (headers_of (class_of d))) gen_class_headers /\
+  In (lcd_class d) (map snd gen_required).
+Proof. exact emitted_class_in_table. Qed.
+Print Assumptions C14_emitted_class_in_table.
+
+Theorem C14_table_classes_nodup : NoDup (map fst gen_class_headers) /\ NoDup (map snd gen_required).
+Proof. exact table_classes_nodup. Qed.
+Print Assumptions C14_table_classes_nodup.
